@@ -72,18 +72,18 @@ def cases_for(prop, tier, seed):
                 # callbacks that push into / complete one of the combined hot sources
                 [c for c in gen.fam_reentrant(g, "C03-re", 0) if any("(sub (%s " % op in c for op in combs)])
     if prop == "C04":
-        return gen.fam_errors(g, "C04-err", 150 * k) + gen.fam_big_params(g, "C04-big", ("retry",))
+        return gen.fam_errors(g, "C04-err", 150 * k) + gen.fam_big_params(g, "C04-big", ("retry",)) + gen.fam_ending_closures(g, "C04-ec")
     if prop == "C05":
         return (gen.fam_unsub_positions(g, "C05-unsub", 40 * k) + gen.fam_hot(g, "C05-hot", 100 * k) +
                 # unsubscribe after a terminal / twice must have no effect on OTHER subscribers of the same subject either
                 # (publish re-connected after its source completed, subscribers that come and go around the terminal)
                 gen.fam_connectables(g, "C05-conn", 30 * k) + gen.fam_subjects(g, "C05-subj", 15 * k) + gen.fam_late_unsub(g, "C05-late"))
     if prop == "C06":
-        return (gen.fam_teardown(g, "C06-td", 100 * k) + [c for c in gen.fam_combinators(g, "C06-comb", 60 * k) if "flat_map" in c or "(unsub" in c] +
+        return (gen.fam_teardown(g, "C06-td", 100 * k) + gen.fam_ending_closures(g, "C06-ec") + [c for c in gen.fam_combinators(g, "C06-comb", 60 * k) if "flat_map" in c or "(unsub" in c] +
                 # the shared source of a connectable is a source subscribed on the subscribers' behalf: it must stop when the last one left
                 [c for c in gen.fam_connectables(g, "C06-conn", 40 * k) + gen.fam_conn_reentrant(g, "C06-cre", 0) if "ref_count" in c or "replay" in c])
     if prop == "C07":
-        return (gen.fam_reentrant(g, "C07-re", 10) + gen.fam_reentrant_closures(g, "C07-cl") + gen.fam_teardown(g, "C07-td", 30 * k) +
+        return (gen.fam_reentrant(g, "C07-re", 10) + gen.fam_reentrant_closures(g, "C07-cl") + gen.fam_ending_closures(g, "C07-ec") + gen.fam_teardown(g, "C07-td", 30 * k) +
                 gen.fam_connectables(g, "C07-conn", 30 * k) + gen.fam_conn_reentrant(g, "C07-cre", 0) + gen.fam_subjects(g, "C07-subj", 20 * k) +
                 gen.fam_chains(g, "C07-chain", 100 * k) + gen.fam_hot(g, "C07-hot", 100 * k))
     if prop == "C10":
@@ -94,7 +94,7 @@ def cases_for(prop, tier, seed):
     if prop == "C14":
         return gen.fam_resubscribe(g, "C14-resub", 100 * k)
     if prop == "C17":
-        return gen.fam_release(g, "C17-rel", 100 * k)
+        return gen.fam_release(g, "C17-rel", 100 * k) + gen.fam_ending_closures(g, "C17-ec", drop=True)
     raise KeyError(prop)
 
 SEQ = {
